@@ -17,6 +17,8 @@ class SeqProp:
     spec_import = ""          # extra Require lines for the cases files
     spec_fn = None            # Gallina: list op -> list obs -> bool, evaluated on the IMPLEMENTATION's observations
     known_fn = None           # Gallina: list op -> list obs -> bool, true = case belongs to a recorded known finding
+    dom_fn = None             # optional (needs spec_fn and known_fn): Gallina list op -> bool, the domain of the uniform "spec holds of the
+                              # model" theorem; scenarios inside / outside are counted in the evidence, nothing is decided by it
     rule = ""
     assumptions = []
     corpus = []               # scenarios that always run first (minimised past failures, known-finding witnesses)
@@ -81,7 +83,10 @@ class SeqProp:
             extra += "\nDefinition chk_spec (c : list op * list obs) : bool := %s (fst c) (snd c).\nEval vm_compute in failing chk_spec LO cases." % spec
         if known:
             extra += "\nDefinition chk_known (c : list op * list obs) : bool := negb (%s (fst c) (snd c)).\nEval vm_compute in failing chk_known LO cases." % known
+        if self.dom_fn and spec and known:
+            extra += "\nDefinition chk_dom (c : list op * list obs) : bool := %s (fst c).\nEval vm_compute in failing chk_dom LO cases." % self.dom_fn
         failing, spec_failing, known_cases, errors = compare_cases3(pid, cases, self.spec_import, chk, extra)
+        outside_dom = list(LAST_FOURTH) if (self.dom_fn and spec and known) else None
         if errors:
             for p, e in errors[:2]: print("COQ ERROR in", p, e[-1500:])
         nontriv = set()
@@ -152,6 +157,9 @@ class SeqProp:
                    traces_validated_against_impl=len(scs) - len(failing) - len(missing),
                    correspondence_mismatches=len(failing), spec_failures=len(spec_failing), known_finding_cases=len(known_cases),
                    input_distribution=self.dist(scs, outs), exhaustive=False)
+        if outside_dom is not None:
+            cov["in_uniform_theorem_domain"] = len(scs) - len(outside_dom)
+            cov["outside_uniform_theorem_domain"] = len(outside_dom)
         write_evidence(pid, tier, seed, cov, self.assumptions, time.time() - t0, 1 if rc == 1 else 0)
         print("[%s] scenarios=%d nontrivial=%d mismatches=%d spec_failures=%d known=%d wall=%.1fs rc=%d" % (
             pid, len(scs), len(nontriv), len(failing), len(spec_failing), len(known_cases), time.time() - t0, rc))
@@ -223,6 +231,7 @@ def compare_cases3(prop, cases, imports, chk, extra):
         files.append(path)
     procs = [subprocess.Popen(["timeout", "900", "coqc", "-noglob", "-Q", COQ, "PV", p], stdout=subprocess.PIPE, stderr=subprocess.STDOUT, text=True) for p in files]
     a, b, c, errors = [], [], [], []
+    d = []
     for p, path in zip(procs, files):
         out = p.communicate()[0]
         if p.returncode != 0:
@@ -238,7 +247,12 @@ def compare_cases3(prop, cases, imports, chk, extra):
         if len(ls) > 0: a += ls[0]
         if len(ls) > 1: b += ls[1]
         if len(ls) > 2: c += ls[2]
+        if len(ls) > 3: d += ls[3]
+    LAST_FOURTH[:] = sorted(d)
     return sorted(a), sorted(b), sorted(c), errors
+
+
+LAST_FOURTH = []
 
 
 def get(pid):
